@@ -4,6 +4,7 @@ Everything is drawn from the random.Random passed in; the result is plain JSON.
 Soundness restrictions (DESIGN.md A2/A3): globally unique task names, unique two-letter namespace per `uses` slot, no
 two namespace-less paths to one pipeline, no quotes/separators in string parameter values (unless zone flag).
 """
+import copy
 from . import abstract as A
 from .. import values as V
 
@@ -49,7 +50,7 @@ def gen_param_value(r, family, depth=0):
         return r.choice(['{VA}/in', 'pre_{VB}', '{VA}{VB}', 'x{VA}y{VA}', '{VB}/{VA}/z', '{VC}'])
     if family == 'obj':
         t = r.random()
-        if t < 0.12:
+        if t < 0.2:
             kw = {'a': r.choice([1, 2, 'p'])}
             # (two or more options make the representation depend on their order in the config: known finding F20, zone profile only)
             for k_ in r.sample(['mode', 'lvl', 'tag'], r.choice([0, 1, 1]) if not _ZONE['optdict'] else r.choice([2, 3])):
@@ -106,6 +107,16 @@ def distinct_pool(r, family, n):
             v = _norm_obj(v) if r.random() < 0.5 else v
             if all(not obj_equiv(v, w) for w in pool):
                 pool.append(v)
+            if isinstance(v, dict) and str(v.get('class', '')).endswith('.POpt') and not _ZONE['optdict'] and len(pool) < n:
+                # a sibling that differs only in an option passed through **kwargs
+                sib = copy.deepcopy(v)
+                opts = [k_ for k_ in sib['kwargs'] if k_ != 'a']
+                if opts:
+                    sib['kwargs'][opts[0]] = 'other' if sib['kwargs'][opts[0]] != 'other' else 'another'
+                else:
+                    sib['kwargs']['mode'] = 'other'
+                if all(not obj_equiv(sib, w) for w in pool):
+                    pool.append(sib)
             continue
         if all(not _loose_eq(v, w) for w in pool):
             pool.append(v)
